@@ -334,14 +334,19 @@ def r6_condense_add(ctx):
             ctx.check(lp is not None and astx.u(lp.iter) == "self.ballots" and not [x for x in lp.body if isinstance(x, (ast.Break, ast.Continue))] and pm.get(node) is lp, f, node,
                       "every ballot's weight is added to its key, unconditionally", "", "the accumulation is conditional or does not cover all ballots")
     good = False
-    if len(key_defs) == 1 and isinstance(key_defs[0], ast.IfExp):
-        e = key_defs[0]
-        b = astx.u(e.test).split(".")[0]
+    acc = [n for n in astx.walk_own(f.node) if isinstance(n, ast.AugAssign) and isinstance(n.target, ast.Subscript) and isinstance(n.target.slice, ast.Name)]
+    if acc:
+        lp = astx.enclosing(acc[0], pm, ast.For)
+        b = astx.u(lp.target) if lp is not None else "?"
+        Nk = Normalizer(f.node, inline=False)
+        cases = astx.value_cases(f.node, acc[0].target.slice.id, acc[0], pm)
 
         def kws(c):
-            return {k.arg: astx.u(k.value) for k in c.keywords} if isinstance(c, ast.Call) else {}
-        good = astx.u(e.test) == f"{b}.scores" and kws(e.body) == {"ranking": f"{b}.ranking", "weight": "Fraction(0)", "scores": f"{b}.scores"} \
-            and kws(e.orelse) == {"ranking": f"{b}.ranking", "weight": "Fraction(0)"}
+            return {k.arg: astx.u(k.value) for k in c.keywords} if isinstance(c, ast.Call) and astx.call_name(c) == "Ballot" and not c.args else None
+        if cases is not None:
+            got = {bool_key(Nk.conj(c)): kws(v) for c, v in cases}
+            good = got == {f"truthy({b}.scores)": {"ranking": f"{b}.ranking", "weight": "Fraction(0)", "scores": f"{b}.scores"},
+                           f"not truthy({b}.scores)": {"ranking": f"{b}.ranking", "weight": "Fraction(0)"}}
     ctx.check(good, f, key_defs[0] if key_defs else f.node, "condense key = (ranking, scores) of the ballot with weight 0", "", "the condense key no longer consists of the ballot's ranking and scores only")
     # rebuild
     rebuilt = [c for c in astx.calls_in(f.node, "Ballot") if any(k.arg == "weight" and isinstance(k.value, ast.Name) for k in c.keywords)]
@@ -425,7 +430,7 @@ def r7_dict_views(ctx):
             elif keyform == "ranking":
                 okk = {astx.u(x) for x in kd} == {f"{b}.ranking", "(frozenset(),)"}
             else:
-                okk = {astx.u(x) for x in kd} == {astx.A(f"tuple([(c, score) for c, score in {b}.scores.items()])"), "tuple()"}
+                okk = {astx.u(x) for x in kd} == {astx.A(f"tuple([(c, score) for c, score in {b}.scores.items()])"), astx.A("tuple()")}
         ctx.check(no_skip and okw and oks and okk, f, lp, f"{name}: weight (or weight/total) of every ballot accumulates under its {keyform} key", f"key={key}, weights={wdefs}",
                   f"{name}: every ballot visited={no_skip}; weight source ok={okw} ({wdefs}); first-store / += accumulate ok={oks}; key is the ballot's {keyform} content={okk}")
 
